@@ -103,7 +103,7 @@ func (r *Range) M__getitem__(key Object) (Object, error) {
 func (r *Range) M__iter__() (Object, error) {
 	return &RangeIterator{
 		Range: *r,
-		Index: r.Start,
+		Index: 0,
 	}, nil
 }
 
@@ -126,15 +126,13 @@ func (it *RangeIterator) M__iter__() (Object, error) {
 
 // Range iterator next
 func (it *RangeIterator) M__next__() (Object, error) {
-	r := it.Index
-	if it.Step >= 0 && r >= it.Stop {
+	// Index counts the items delivered so far: comparing a running
+	// value against Stop goes wrong when value+Step overflows
+	if it.Index >= it.Length {
 		return nil, StopIteration
 	}
-
-	if it.Step < 0 && r <= it.Stop {
-		return nil, StopIteration
-	}
-	it.Index += it.Step
+	r := computeItem(&it.Range, it.Index)
+	it.Index++
 	return r, nil
 }
 
